@@ -36,7 +36,10 @@ THEOREMS = ["dtype_table_is_hardware_rule", "dtype_sound", "read_partition", "wr
 RULE = ("cases = (operation in read/write/fill/link read/link write/struct field/vcpu field, chip, core, address of every "
         "alignment, length 0 .. 5 buffers +- 3, buffer size in {4,5,6,7,8,12,16,64,66,128,130,250,255,256,260,384,508,512}, window 1-8, network fault "
         "script); non-trivial = more than one command was needed or a datagram was lost/duplicated/delayed; distinct = "
-        "distinct canonical JSON of the case")
+        "distinct canonical JSON of the case; plus sessions = 2-5 such operations through ONE controller on different "
+        "chips, some preceded by a software-version query to an application core that reports another buffer size, "
+        "some with the struct definitions replaced mid-session (what boot() does) followed by accesses to fields "
+        "touched before the swap")
 
 BUFS = [4, 8, 12, 16, 64, 128, 256, 256, 256, 260, 384, 508, 512, 5, 6, 7, 66, 130, 250, 255]
 
@@ -100,10 +103,22 @@ def gen_case(rng, struct_fields):
     return c
 
 
-def independent_struct_table(repo):
+def struct_text(repo, variant=0):
+    """the text of rig's sark.struct; variant k > 0: the same definitions with the system-variable block
+    at another base address (what booting with another struct file gives)"""
+    text = open(os.path.join(repo, "rig", "boot", "sark.struct"), "rb").read().decode()
+    if variant:
+        new = re.sub(r"(name\s*=\s*sv\b.*?base\s*=\s*)(\S+)",
+                     lambda m: m.group(1) + "%#x" % (int(m.group(2), 0) - 0x100 * variant), text, count=1, flags=re.S)
+        assert new != text
+        text = new
+    return text
+
+
+def independent_struct_table(repo, variant=0):
     """{struct: {"base":, "size":, fields: {name: (offset, perl_pack, count)}}} parsed independently of rig"""
     out, cur = {}, None
-    for line in open(os.path.join(repo, "rig", "boot", "sark.struct"), "rb").read().decode().splitlines():
+    for line in struct_text(repo, variant).splitlines():
         line = line.split("#")[0].strip()
         if not line:
             continue
@@ -174,6 +189,17 @@ def run_impl(case, table, env=None):
         x, y, p = case["x"], case["y"], case["p"]
         op = case["op"]
         try:
+            if op == "sver":
+                # an application core is asked for its software version (its SARK may report another
+                # buffer size than SC&MP does); says nothing about the machine's transfer buffer
+                machine.app_buffer_size = case["app_buf"]
+                mc.get_software_version(x, y, max(1, p))
+            elif op == "restruct":
+                # what MachineController.boot(...) does with the struct definitions of the booted image
+                from rig.machine_control import struct_file
+                from harness import common
+                mc.structs = struct_file.read_struct_file(struct_text(common.REPO, case["variant"]).encode())
+                env["table"] = independent_struct_table(common.REPO, case["variant"])
             buf = mc.scp_data_length            # one SVER request (send index 0)
             n_before = len(machine.requests)
             before = {k: dict(v) for k, v in machine.mem.items()}
@@ -295,7 +321,9 @@ def cmds_as_chunks(cmds):
 
 def eval_cases(ctx, cases, table, env=None):
     reqs, meta = [], []
+    table0 = table
     for case in cases:
+        table = (env or {}).get("table", table0)     # a session may have swapped the struct definitions
         res = run_impl(case, table, env)
         desc = case
         ctx.traces += 1
@@ -404,16 +432,37 @@ def run(ctx):
         sess = []
         chips = [(0, 0), (0, 1), (1, 0), (1, 1)]
         ctx.rng.shuffle(chips)
-        for i in range(ctx.rng.randrange(2, 5)):
+        pre = ctx.rng.choice(["", "", "sver", "restruct", "restruct"])
+        n_steps = ctx.rng.randrange(2, 5) + (1 if pre else 0)
+        swap_at = ctx.rng.randrange(1, n_steps - 1) if n_steps > 2 else 1
+        for i in range(n_steps):
             c = gen_case(ctx.rng, fields)
-            if ctx.rng.random() < 0.6:
+            if pre == "restruct" and i < swap_at and ctx.rng.random() < 0.5:
+                c["op"] = "struct"
+                c["field"] = ctx.rng.choice(sorted(fields["sv"]))
+                c["rw"] = ctx.rng.choice(["r", "w"])
+                c["seed"] = ctx.rng.randrange(1 << 30)
+            elif ctx.rng.random() < 0.6:
                 c["op"] = "vcpu"
                 c["field"] = ctx.rng.choice(sorted(n for n in fields["vcpu"] if n != "__PAD"))
                 c["rw"] = ctx.rng.choice(["r", "w"])
                 c["seed"] = ctx.rng.randrange(1 << 30)
-            c.update(buf=buf, window=window, script={}, x=chips[i][0], y=chips[i][1], session_step=i)
+            c.update(buf=buf, window=window, script={}, x=chips[i % 4][0], y=chips[i % 4][1], session_step=i)
             if "data" in c:
                 c["data"] = c["data"][:c["len"]]
+            if i == 0 and pre == "sver":
+                # before anything else: an application core reports ANOTHER buffer size in its sver reply
+                c.update(op="sver", p=ctx.rng.randrange(1, 18), app_buf=ctx.rng.choice([2 * buf, buf + 4, max(4, buf // 2)]))
+            elif i > 0 and pre == "restruct" and i == swap_at:
+                c.update(op="restruct", variant=ctx.rng.randrange(1, 4))
+            elif i > 0 and sess[-1]["op"] == "restruct" and ctx.rng.random() < 0.7:
+                # after the swap: touch something that was touched before it
+                prev = [h for h in sess if h["op"] in ("struct", "vcpu")]
+                if prev:
+                    h = ctx.rng.choice(prev)
+                    c.update(op=h["op"], field=h["field"], rw=ctx.rng.choice(["r", "w"]), seed=ctx.rng.randrange(1 << 30))
+                    if ctx.rng.random() < 0.5:
+                        c.update(x=h["x"], y=h["y"], p=h["p"])
             # the replay of a step needs the steps before it
             c["session_history"] = [{k: v for k, v in h.items() if k != "session_history"} for h in sess]
             sess.append(c)
